@@ -62,6 +62,7 @@ Definition wants (c : config) (p : pc) : option mutex :=
   | PLk _ | PFlt _ | PUfs _ _ | PFv _ | PLd2 _ _ | CFLk _ | AXLm _ => Some MLoaded
   | PNr _ r | PUse _ r | PExp _ r | PLd1 _ r | CFR _ r | TMLk r | AXLr r => Some (MRef r)
   | PFvR _ (r :: _) _ => Some (MRef r)
+  | PUfsR _ _ (r :: _) => Some (MRef r)
   | CE1 r => if fxC (c_fix c) then Some MLoaded else Some (MRef r)
   | CE2 r => if fxC (c_fix c) then Some (MRef r) else Some MLoaded
   | _ => None
